@@ -67,6 +67,7 @@ def history_logs(rng):
     from py_gql import build_schema, graphql_blocking, process_graphql_query
     from py_gql.execution.runtime import AsyncIORuntime, BlockingRuntime, ThreadPoolRuntime
     logs = []
+    partial = []
     for cfgname in ("blocking-generic", "blocking-optimised", "pool", "asyncio"):
         cur = {}
 
@@ -111,8 +112,24 @@ def history_logs(rng):
             for k, (ni, nm) in enumerate(stacks):
                 rec = schedreplay.Recorder(ni, nm)
                 cur["rec"] = rec
-                kw = {"instrumentation": rec.instrumentation(), "middlewares": rec.middlewares(), "variables": {"nv": None}}
-                q = "query ($nv: Int) { a { c d } b g(x: $nv) }"
+                from py_gql.execution import Instrumentation
+
+                class EndOnly(Instrumentation):          # implements only the field END hook (e.g. a counter of completed fields)
+                    seen = []
+
+                    def on_field_end(self, root, context, info):
+                        self.seen.append("/".join(map(str, info.path)))
+
+                class StartOnly(Instrumentation):
+                    seen = []
+
+                    def on_field_start(self, root, context, info):
+                        self.seen.append("/".join(map(str, info.path)))
+                eo, so = EndOnly(), StartOnly()
+                eo.seen, so.seen = [], []
+                partial.append((rec, eo, so, cfgname, nm))
+                kw = {"instrumentation": rec.instrumentation(extra=(eo, so)), "middlewares": rec.middlewares(), "variables": {"nv": None}}
+                q = "query ($nv: Int) { __typename a { c d __typename } b g(x: $nv) }"
                 exc = None
                 try:
                     if cfgname == "blocking-optimised":
@@ -135,7 +152,23 @@ def history_logs(rng):
                 rt._inner.shutdown()
             if loop is not None:
                 loop.close()
-    return logs
+    # clauses the event judge cannot see: instrumentations implementing only one of the two field hooks still see every field;
+    # every field except the one whose arguments do not coerce (g) goes through every middleware - meta fields included
+    extra = []
+    for rec, eo, so, cfgname, nm in partial:
+        fs1 = sorted(e["p"] for e in rec.log if e["e"] == "fs" and e["i"] == 1)
+        fe1 = sorted(e["p"] for e in rec.log if e["e"] == "fe" and e["i"] == 1)
+        if sorted(so.seen) != fs1:
+            extra.append(("hooks/partial-instrumentation/start-only/%s" % cfgname, {"expected": fs1, "got": sorted(so.seen)}))
+        if sorted(eo.seen) != fe1:
+            extra.append(("hooks/partial-instrumentation/end-only/%s" % cfgname, {"expected": fe1, "got": sorted(eo.seen)}))
+        for p in fs1:
+            if p == "g":
+                continue
+            ms = sorted(e["m"] for e in rec.log if e["e"] == "mwin" and e["p"] == p)
+            if ms != list(range(1, nm + 1)):
+                extra.append(("hooks/middleware-bypassed/%s/%s" % ("meta-field" if p.split("/")[-1].startswith("__") else "field", cfgname), {"path": p, "middlewares_entered": ms, "configured": nm}))
+    return logs, extra
 
 
 def norm_events(events):
@@ -183,9 +216,11 @@ def run(chk):
     nx = non_execution_logs(rng)
     chk.count("non-execution logs", len(nx))
     logs += nx
-    hl = history_logs(rng)
+    hl, hextra = history_logs(rng)
     chk.count("shared-runtime history logs", len(hl))
     logs += hl
+    for key, wit in hextra:
+        chk.diverge(key, wit, "instrumentation / middleware clause of the request-history scenario is violated")
     # canaries: drop one fe event / swap two stage ends in accepted-looking traces
     canaries = []
     for l in logs:
